@@ -250,12 +250,15 @@ def pUnifiedString : P Val := do
 def pyRstrip (s : String) : String :=
   String.ofList (s.toList.reverse.dropWhile Char.isWhitespace).reverse
 
+/-- `s[s.index('"') + 1:]` (the token is a prefixed string literal, so the quote exists) -/
+def dropThroughQuote (s : String) : String := String.ofList ((s.toList.dropWhile (· != '"')).drop 1)
+
 def unifiedWStrLoop : Nat → String → P String
   | 0, _ => P.fail .fuel
   | fuel+1, v => do
     if inSet (← peekType) wstrLiteral then
       let t2 ← advance
-      unifiedWStrLoop fuel (dropLastChar (pyRstrip v) ++ dropFirstChars 2 t2.val)
+      unifiedWStrLoop fuel (dropLastChar (pyRstrip v) ++ dropThroughQuote t2.val)
     else pure v
 
 /-- `_parse_unified_wstring_literal` -/
